@@ -28,6 +28,9 @@ ID = "C04"
 LEVEL = "exploration"
 DESIGN_REF = "DESIGN.md#C04"
 TECHNIQUE = "runtime monitoring: generated page trees; reference DFS/inheritance/rotation model compared with PDFPage attributes, LTPage.bbox and glyph origins; exhaustive page selection"
+LEVEL_TEXT = (
+    'Exploration: random page trees with inheritable attributes at random nodes are compared with a reference DFS/inheritance walk and an independently derived rotation transform (all coordinates integers, exact); page selection is enumerated exhaustively for up to 5 pages in the thorough tier; cyclic trees run under a line-count budget. Right level: tree shapes are unbounded, but the oracle is a few lines of specification and every attribute/rotation/selection combination is counted in the evidence.'
+)
 RULE = (
     "random page trees (depth<=6, fan-out<=5, <=40 pages quick / <=300 thorough; chains and wide flat trees) with "
     "Resources/MediaBox/CropBox/Rotate at random nodes (direct/indirect, boxes with indirect elements), Rotate in "
